@@ -20,7 +20,7 @@ ASSUMPTIONS = ["byte offsets of the preset layout as documented (anchored on 4 r
 
 def plan(tier):
     if tier == "quick":
-        return [("debug", 8, dict(nchar=60, ngs=12))]
+        return [("debug", 16, dict(nchar=100, ngs=30))]
     return [("debug", 16, dict(nchar=1500, ngs=160)), ("release", 2, dict(nchar=300, ngs=40))]
 
 
